@@ -578,6 +578,11 @@ pub fn params_builder_failed_insert() -> Value {
 				let desc = format!("{} builder, inserts {:?} (0 = ok, 1 = Serialize fails at once, 2 = Serialize fails after writing part of the value), then build", if named {"named"} else {"positional"}, ops);
 				match res {
 					Err(_) => return json!({"probe":"params_builder_failed_insert","disagrees":true,"input":desc,"observed":"to_rpc_params() panicked","expected":"valid JSON for the values inserted successfully"}),
+					// nothing was inserted successfully: the builder is empty, which means "no params"
+					Ok((good, Ok(None))) if good.is_empty() => {}
+					Ok((good, Ok(Some(txt)))) if good.is_empty() => {
+						return json!({"probe":"params_builder_failed_insert","disagrees":true,"input":desc,"observed":format!("Some({txt})"),"expected":"None: no value was inserted, an empty builder means 'no params'"});
+					}
 					Ok((good, Ok(Some(txt)))) => {
 						let parsed: Result<Value, _> = serde_json::from_str(&txt);
 						let want: Value = if named { Value::Object(good.iter().map(|i| (format!("k{i}"), json!(i))).collect()) } else { json!(good) };
